@@ -139,7 +139,7 @@ theorem metaProc_history_eq (r : Realm) (req : Nat) (details : Dict) (args : Lis
              match (if (r.broker.findId id).isSome then r.broker.hist.find? (fun h => h.sub == id) else none) with
              | none => (mYield req [] [("is_limit_reached", .bool false)], r)
              | some h =>
-               (mYield req ((histAnswer q h.entries).map histEntryVal)
+               (mYield req ((histAnswer (subQuery r id q) h.entries).map histEntryVal)
                  [("is_limit_reached", .bool (h.entries.length ≥ h.limit))], r)) := by
   unfold metaProc
   have e1 : (MetaProcEventHistory == MetaProcSessionCount) = false := by decide
